@@ -281,6 +281,35 @@ def check(ctx):
     except Unmodelled as e:
         ctx.unknown("R01.2", "dispatch vector component input", str(e))
 
+    # per-axis option mappings over two axes: the call for each axis must resolve to that axis' own entry
+    for order in (("AX", "AY"), ("AY", "AX")):
+        inst = f"per-axis boundary / fill_value mappings, axes {list(order)}"
+        bmap = {Sym("AX"): "fill", Sym("AY"): "extend"}
+        fmap = {Sym("AX"): 1.0, Sym("AY"): 2.0}
+        try:
+            outs = run_dispatch(P, "interp", {"AX": "center", "AY": "center"}, "left", axnames=("AX", "AY"), axis_arg=[Sym(a) for a in order],
+                                kwargs={"boundary": dict(bmap), "fill_value": dict(fmap)})
+        except Unmodelled as e:
+            ctx.unknown("R01.2", inst, str(e))
+            continue
+        bad = None
+        for o in outs:
+            ufs = [e for e in o.events if e[0] == "ufunc"]
+            if o.kind != "return" or len(ufs) != 2:
+                bad = f"{o.kind}: {len(ufs)} grid-ufunc calls for two axes"
+                continue
+            for axn, u in zip(order, ufs):
+                kw = u[4]
+                for what, want in (("boundary", bmap[Sym(axn)]), ("fill_value", fmap[Sym(axn)])):
+                    given = kw.get(what, "<not passed>")
+                    eff = given.get(Sym(axn), "<axis default>") if isinstance(given, dict) else given
+                    if eff != want:
+                        bad = bad or f"axis {axn}: the grid ufunc is given {what}={given!r}, which resolves to {eff!r} for this axis; the caller asked for {want!r}"
+        if bad:
+            ctx.report("R01.2", disp, inst, bad)
+        else:
+            ctx.ok("R01.2", inst, "each axis applied with its own rule and fill value")
+
     _check_select(ctx, P, entries, prefixes)
     _check_default_shifts(ctx, P)
     check_pad_basic(ctx, P, "R01.5")
